@@ -878,6 +878,42 @@ func (h *history) balancedUpdateDance() {
 	h.s.tr.stats["balanced-update-dances"]++
 }
 
+// coincidenceDance (collation trees, empty tree): two strings sharing all but their last letter, and a beginning of
+// them whose (terminated) collation key is exactly as long as what the two share – an absent key that runs out
+// precisely where the compressed path ends – plus the neighbouring lengths.
+func (h *history) coincidenceDance() {
+	t := h.s.trees[h.id]
+	tkeyLen := func(lit string) int { return len(sortKeyOf(t.TranscriptLit(lit))) + 2 }
+	base := "kzqmvhtrlcwpdgbnysfjxaeoiu" + "kzqmvhtrlcwpdgbnysfjxaeoiu"
+	done := 0
+	for n := 8; n < 44 && done < 2 && !h.s.dead[h.id]; n++ {
+		s1, s2 := hexLit([]byte(base[:n-1]+"e")), hexLit([]byte(base[:n-1]+"o"))
+		k1, k2 := sortKeyOf(t.TranscriptLit(s1)), sortKeyOf(t.TranscriptLit(s2))
+		shared := 0
+		for shared < len(k1) && shared < len(k2) && k1[shared] == k2[shared] {
+			shared++
+		}
+		for m := 5; m < n-1; m++ {
+			if tkeyLen(hexLit([]byte(base[:m]))) != shared {
+				continue
+			}
+			h.insert(s1)
+			h.insert(s2)
+			for _, mm := range []int{m, m - 1, m + 1} {
+				p := hexLit([]byte(base[:mm]))
+				h.s.exec("get", h.id, p)
+				h.remove(p)
+			}
+			h.s.exec("dump", h.id)
+			h.remove(s1)
+			h.remove(s2)
+			done++
+			h.s.tr.stats["coincidence-dances"]++
+			break
+		}
+	}
+}
+
 // singletonDance: the tree holds no key or exactly one; every branch that treats the root leaf specially is taken
 // with queries interleaved (which must not matter)
 func (h *history) singletonDance() {
@@ -919,6 +955,12 @@ func (h *history) run() {
 				h.remove(h.order[0])
 			}
 			h.mergeDance()
+		}
+		if h.cfg.collName != "" {
+			for len(h.order) > 0 {
+				h.remove(h.order[0])
+			}
+			h.coincidenceDance()
 		}
 	}
 	phaseLeft := 0
@@ -1316,7 +1358,7 @@ func (h *history) probeSweep() {
 		ks := append([]string{}, h.order...)
 		r.Shuffle(len(ks), func(i, j int) { ks[i], ks[j] = ks[j], ks[i] })
 		for n, k := range ks {
-			if n >= 3 || h.s.dead[h.id] {
+			if n >= 10 || h.s.dead[h.id] {
 				break
 			}
 			rs := []rune(string(unhex(k)))
@@ -1468,7 +1510,7 @@ func histCfgsFor(family string, r *rand.Rand) []histCfg {
 			// two schemas whose keys are longer than the inline limit are always present
 			// (and the one-byte codecs lead a tuple in every run: what they hand out is appended to)
 			if i == 0 {
-				fs = pick(r, [][]string{{"u8", "u64", "u32"}, {"u8", "i64", "u64"}, {"u8", "u32", "i64", "u16"}})
+				fs = pick(r, [][]string{{"u8", "u64", "u64"}, {"u8", "i64", "u64"}, {"u8", "u32", "i64", "u32"}})
 			} else if i == 1 {
 				fs = pick(r, [][]string{{"u16", "s"}, {"i32", "u8", "s"}, {"u64", "s"}, {"i8", "s"}})
 			} else if i == 2 {
@@ -1558,8 +1600,9 @@ func runTreeMode(cfg treeRunCfg, tr *transcript) {
 				}
 			}
 			if fam == "comp" && i < 2 {
-				// the long schemas: branch points at every depth in every run
-				h.uni = []universe{hc.unis[2], hc.unis[2], hc.unis[1]}
+				// the long schemas: one history over clusters (a few long compressed paths with branch points beyond the
+				// inline limit – not mixed with anything that would split them), one with a branch point at every depth
+				h.uni = []universe{hc.unis[1+i]}
 			}
 			if r.Intn(3) == 0 {
 				h.uni = append(h.uni, pick(r, hc.unis))
